@@ -99,3 +99,25 @@ CLAIMED = {
 }
 _PENDING = "check not built yet in this round (design in DESIGN.md §4); will be claimed when its rules run clean"
 NA = {}
+
+# additions of the later build rounds: (appended to the technique, appended to the level text)
+EXTRA = {
+ "C03": ("; tensor value numbering of join / stack / slice / atom_slice / center_coordinates on model trajectories (sa/tensym.py)",
+         " For join, stack, slice and atom_slice every array of the result is shown, element for element on model trajectories, to be the numpy concatenation / indexing of the operands' arrays; cached traces - where carried - belong to the frames of the result and to frames centred on the geometric centre."),
+ "C04": ("; codec tables (bond-type floats, element pickle key)",
+         " The float codec of bond types is injective and decoded without rounding; elements are re-created on deepcopy / unpickle from a key that is unique in the element table."),
+ "C05": ("; every Python dispatcher evaluated on a model trajectory over periodic x cell x opt (which kernel, which box orientation, which orthogonality flag)", ""),
+ "C06": ("; reduction of the closed-form cubic / quartic roots modulo the relations of their radicals; guard facts for every partial function of the solvers",
+         " Every root expression returned by the Cardano / trigonometric / repeated-root cases of the cubic and by Ferrari's method for the quartic (16 paths) satisfies its polynomial modulo sqrt(u)^2 = u, cbrt(u)^3 = u, the triple-angle identity and the resolvent; every sqrt / acos / cube root / division is taken under conditions that keep its argument in the domain."),
+ "C07": ("; dispatch by evaluation over periodic x cell x opt", ""),
+ "C10": ("; algebraic value numbering of both loop bodies of compute_neighbors for generic atoms i, j against the definition built from the parameters; face tests and the y row of a z voxel under triclinic cells in the cell list",
+         " In triclinic cells the cell list visits the whole row of y voxels for a z voxel (a single periodic-copy offset loses pairs near half the box)."),
+ "C11": ("; evaluation of make_molecules_whole / image_molecules through the class's own methods on a model trajectory (array identity: copy unless inplace; default bond list); no topology-derived memo on the trajectory", ""),
+ "C12": ("; evaluation of the infix operand chains on model operands", ""),
+ "C16": ("; tensor value numbering (sa/tensym.py) of the whole-array descriptors on a generic instance of every axis, compute_contacts evaluated on a model topology of unequal residues, RDF functions with histogram / distance calls summarised",
+         " Also decided by tensor evaluation: inertia tensor (both implementations), Q tensor and nematic order, dipole moments (sign included), density through cell lengths and angles, squareform, the chunk partition and weights of compute_rdf_t."),
+ "C17": ("; tensor evaluation of the unitcell_vectors getter / setter on every data-dependent path; lengths and angles from the same object at every call site", ""),
+ "C18": ("; freshness of the arrays handed out by read() over the class's own methods",
+         " read() never hands out (a view of) an array the reader keeps (scratch buffers, caches)."),
+ "C19": ("; argument-only refusals before the first-write initialisation; reachability of the atom-count refusal", ""),
+}
